@@ -243,6 +243,12 @@ def check_intrinsics(case: typing.Any, ctx: Ctx) -> Info:
                 lines.append("@sealed")
 
         response = case.get("response")
+        if case.get("mirror_kind"):
+            # a service whose response has exactly the fields of its request but is the other kind of composite (structure <-> union):
+            # the same sequence of field types, entirely different offsets
+            mb = top_spec[1] if top_spec[0] == "delim" else top_spec
+            if len(mb[1]) >= 2 and all(ft[0] != "void" for _, ft in mb[1]):
+                response = ["union" if mb[0] == "struct" else "struct", [[fn_, ft] for fn_, ft in mb[1]]]
         n_deps = len(tb.order) - 1
         if response is not None:
             # the response's own dependencies are emitted too (its fields may be composites)
@@ -341,7 +347,8 @@ def parts(ctx: Ctx) -> typing.List[Part]:
         Part(
             "intrinsics",
             st.fixed_dictionaries({"spec": gt.composites(gt.small_capacity(), max_leaves=6), "response": st.one_of(st.none(), gt.composites(gt.small_capacity(), max_leaves=4)),
-                                   "sealed_pos": st.one_of(st.none(), st.integers(0, 8)), "sealed_pos_response": st.one_of(st.none(), st.integers(0, 8))}),
+                                   "sealed_pos": st.one_of(st.none(), st.integers(0, 8)), "sealed_pos_response": st.one_of(st.none(), st.integers(0, 8)),
+                                   "mirror_kind": st.sampled_from([False, False, False, True])}),
             check_intrinsics, weight=2, cost=5.0,
         ),
     ]
